@@ -37,6 +37,11 @@ var hostileTemplates = []string{
 	"`a{;}b`", "`a{%;%}b{ // nothing\n }c`", "x = {v}; `a{;}b{% if 0 { 1 } %}c{ // c\n}`", "`{;}{;}{;}`", "\x1e{;}{% ; %}\x1e", "`a{ {v} }b{;}c{ func g(n) { n }; g({v}) }d`",
 	"x=[1]; y=[1]; x[0]=y; y[0]=x; x==y", "x={}; y={}; x.a=y; y.a=x; x=={v}", "x=[1]; x[0]=x; x==x", "x=[1]; x[0]=x; [x]==[[x]]",
 	"x=[1,2]; i=0; while i<{n} { x[0:0]=x; i=i+1 }; x.len()", "x=[1,2]; i=0; while i<{n} { x[1:]=x; i=i+1 }", "x=[1]; i=0; while i<{n} { x[0:1]=[x,x]; i=i+1 }",
+	// prototype chains that run into a loop which does not contain the starting dict (rho shape), and long legal chains
+	"b={}; b.__proto__=b; a={}; a.__proto__=b; a.missing", "b={}; c={}; b.__proto__=c; c.__proto__=b; a={'k':1}; a.__proto__=b; [a.k, a.q, a.len()]",
+	"p={}; q={}; r={}; p.__proto__=q; q.__proto__=r; r.__proto__=q; t={}; t.__proto__=p; t.len() + t.zz", "a={'v':{v}}; i=0; while i<{m} { b={}; b.__proto__=a; a=b; i=i+1 }; a.v",
+	// definitions nested in definitions whose inner body rolls dice (process text spans of nested bodies)
+	"func f() { &a = 2d6 + 1; a }; f()", "func f() { func g() { 2d }; g() }; f()", "func f() { &a = 2d6; &b = a + d4; b }; f(); f() + 1", "func f(n) { func g(m) { &c = m + 3d1; c }; g(n) + d1 }; f({v})", "&o = `{% &i = 3d6; i %}`; o + o",
 	"x={}; x.__proto__=x; x.foo", "x={}; y={}; x.__proto__=y; y.__proto__=x; x.q", "x={'__proto__':{v}}; x.k", "x={}; x.__proto__={'a':{v}}; x.a",
 	"&x = 1; &x.k = &x; x.k", "&a = {v}; a.compute()", "x=[{v}]; x.shuffle(); x.randSize({v})", "x=[3,1,2]; x.kh({v}) + x.kl({v})",
 	"i=0; while i<{n} { i=i+1; if 1 { continue } }; i", "i=0; while i<{n} { i=i+1; if i>1 { break } }; i", "i=0; while i<{n} { i=i+1; if 1 { if 1 { continue } } }",
